@@ -158,7 +158,7 @@ package keeper
 //@ assumes openCount(ctx) > 0
 //@ ensures C08/pool-total-in-step-with-positions: lpPoolGap(ctx, p) == old(lpPoolGap(ctx, p))
 //@ ensures C08/counter-in-step: lpCountGap(ctx) == old(lpCountGap(ctx))
-//@ ensures C08/no-attempt-no-close: !closeAttempted ==> posHas(ctx, unbech32(position.Address), position.Id) && positionIsStored(ctx, position) && poolHas(ctx, position.AmmPoolId) && poolRow(ctx, position.AmmPoolId).LeveragedLpAmount == old(poolRow(ctx, position.AmmPoolId).LeveragedLpAmount) && position.AmmPoolId == old(position.AmmPoolId)
+//@ ensures C08/failed-or-unattempted-close-changes-nothing: err != nil ==> posHas(ctx, unbech32(position.Address), position.Id) && positionIsStored(ctx, position) && poolHas(ctx, position.AmmPoolId) && poolRow(ctx, position.AmmPoolId).LeveragedLpAmount == old(poolRow(ctx, position.AmmPoolId).LeveragedLpAmount) && position.AmmPoolId == old(position.AmmPoolId)
 
 //@ func (Keeper).CheckAndCloseAtStopLoss
 //@ forall p Int
